@@ -154,6 +154,26 @@ def check_hh_query_sees_other_view(cnt: int, thr: int) -> bool:
     return first == [] and second == ([(b"a", cnt)] if cnt >= thr else [])
 
 
+def check_factory(kind: int, none_nr: bool, nr: int, mc: int) -> bool:
+    """
+    pre: 0 <= kind <= 2 and 0 <= nr < 255 and 70000 <= mc < 2**64
+    post: _ == True
+    """
+    for k in range(3):
+        if kind == k:
+            t = ("linear", "log16", "log8")[k]
+            sk = CM.CountMin(t, 3, 2, mc, None if none_nr else nr)
+            cls = (CM.CountMinLinear, CM.CountMinLog16, CM.CountMinLog8)[k]
+            ok = type(sk) is cls and ival(sk.width) == 3 and ival(sk.depth) == 2
+            if k > 0:
+                ok = ok and sk.max_count == mc and ival(sk.num_reserved) == ((1023 if k == 1 else 15) if none_nr else nr)
+            # and a sketch rebuilt from .args is the same configuration
+            tw = CM.CountMin(**sk.args)
+            ok = ok and type(tw) is cls and (k == 0 or (tw.max_count == sk.max_count and tw.num_reserved == sk.num_reserved))
+            return ok
+    return True
+
+
 def check_dispatch(kind: int) -> bool:
     """
     pre: 0 <= kind <= 3
@@ -298,6 +318,21 @@ def real_hh_query_sees_other_view(cnt, thr):
     del view
     _gc.collect()
     return ok, f"owner.query() before {first!r}; after view.add(b'a', {cnt}) the owner answers {second!r}, expected {want!r}"
+
+
+def real_factory(kind, none_nr, nr, mc):
+    t = ("linear", "log16", "log8")[kind]
+    try:
+        sk = CM.CountMin(t, 3, 2, mc, None if none_nr else nr)
+    except ValueError:
+        return True, "constructor refused the configuration"
+    cls = (CM.CountMinLinear, CM.CountMinLog16, CM.CountMinLog8)[kind]
+    ok = type(sk) is cls
+    if kind > 0:
+        ok = ok and int(sk.max_count) == mc and int(sk.num_reserved) == ((1023 if kind == 1 else 15) if none_nr else nr)
+        tw = CM.CountMin(**sk.args)
+        ok = ok and int(tw.num_reserved) == int(sk.num_reserved) and int(tw.max_count) == int(sk.max_count)
+    return ok, f"CountMin({t!r}, 3, 2, {mc}, {None if none_nr else nr}) -> {type(sk).__name__} num_reserved={getattr(sk, 'num_reserved', None)}"
 
 
 def real_dispatch(kind):
